@@ -85,7 +85,7 @@ def validate_semantics(seed, n):
     regex crate (PikeVM): whole-haystack matching and leftmost search on the implementation's outputs,
     haystacks = test cases, their prefixes/suffixes, one-character edits, random strings."""
     rnd = random.Random(seed + 77)
-    cs = casegen.generate(seed + 6, n, allow_flags=[f for f in casegen.FLAGS if f not in ('c', 'E', 'i')])
+    cs = casegen.generate(seed + 6, n, allow_flags=[f for f in casegen.FLAGS if f not in ('c', 'E')])
     for i, c in enumerate(cs):
         c['id'] = i
     impl = runner.run_impl(cs)
@@ -100,6 +100,7 @@ def validate_semantics(seed, n):
             if t:
                 hs.append(t[:rnd.randrange(len(t))]); hs.append(t[rnd.randrange(len(t)):])
                 u = list(t); u[rnd.randrange(len(u))] = rnd.choice([97, 98, 49, 32, 0xe9]); hs.append(u)
+                hs.append([ord(ch) for ch in ''.join(map(chr, t)).swapcase()])
                 hs.append(t + t[:1]); hs.append([120] + t + [121])
         hs.append([])
         items.append((r['out'], hs[:16]))
